@@ -80,6 +80,9 @@ type PageGen struct {
 	MarkMode int
 	// DupAttrs: now and then an attribute is written twice on one element (the parser keeps both)
 	DupAttrs bool
+	// BaseHref: a <base href> element in the head (the library resolves content URLs against the
+	// page URL the caller supplied, whatever the document says)
+	BaseHref string
 	// SafeMarkers: only marker words without a second documented meaning; marked wrappers hold only block content
 	SafeMarkers bool
 }
@@ -770,5 +773,9 @@ func (g *PageGen) blocks(n, depth int) string {
 
 // Page returns a whole document with n top-level blocks.
 func (g *PageGen) Page(n int, title string) string {
-	return "<html><head><title>" + title + "</title></head><body>\n" + g.blocks(n, 0) + "</body></html>"
+	base := ""
+	if g.BaseHref != "" {
+		base = `<base href="` + g.BaseHref + `">`
+	}
+	return "<html><head>" + base + "<title>" + title + "</title></head><body>\n" + g.blocks(n, 0) + "</body></html>"
 }
